@@ -400,6 +400,7 @@ def extract_function(fn):
     for mname in fn.get("methods", []):
         def _m(mo, body_ref=[None]):
             return mo.group(0)
+        body = re.sub(r"\bself->%s\(" % re.escape(mname), mname + "(", body)   # this->f(...) form
         pat = re.compile(r"(?<![\w.>:])%s\(\s*(\)?)" % re.escape(mname))
         body, k = pat.subn(lambda mo: "%s(self%s" % (mname, ")" if mo.group(1) else ", "), body)
         if k == 0:
@@ -490,10 +491,14 @@ def extract_const_block(c):
                                % (c["pattern"], len(ms), c["file"], c.get("min_count", 1)))
     text = []
     infos = []
+    local_names = [m.group("name") for m in ms]
     for m in ms:
         name = c.get("prefix", "") + m.group("name")
         val = _rewrite_named_casts(m.group("value").strip(), [])
         val = re.sub(r"\b([A-Za-z_]\w*)::(?=[A-Za-z_])", r"\1_", val)
+        if c.get("prefix"):
+            for ln in local_names:   # constants of the same namespace referenced unqualified
+                val = re.sub(r"(?<![\w])%s\b" % re.escape(ln), c["prefix"] + ln, val)
         ty = m.groupdict().get("type")
         if ty:
             text.append("#define %s ((%s)(%s))" % (name, ty, val))
